@@ -4,6 +4,7 @@ import (
 	"fmt"
 	"os"
 	"strconv"
+	"strings"
 	"testing"
 
 	"pgregory.net/rapid"
@@ -18,6 +19,7 @@ var (
 	cRefs    = vt.New("C13", "reference-sweep")
 	cCompose = vt.New("C13", "compose")
 	cGuard   = vt.New("C13", "guard-selfcheck")
+	cProbe   = vt.New("C13", "telemetry-processors-probe")
 )
 
 // mine: sweep item i belongs to this shard.
@@ -333,7 +335,11 @@ func TestGuardSelfCheck(t *testing.T) {
 	}
 	for _, tc := range cases {
 		s, _ := minimal(otlp, tc.ws)
-		kept, ok := guard(c, otlp, secExporters, "otlp/t", tc.ws)
+		kept, ok, pf := guard(c, otlp, secExporters, "otlp/t", tc.ws)
+		if pf != nil {
+			c.Inconclusive("guard self-check %q: %v", tc.name, pf)
+			t.Fatalf("guard self-check %q: %v", tc.name, pf)
+		}
 		got := len(kept)
 		if !ok {
 			got = -1
@@ -350,4 +356,64 @@ func TestGuardSelfCheck(t *testing.T) {
 		}
 	}
 	c.SetExhaustive(true)
+}
+
+// TestTelemetryProcessorsProbe: regression probe for a crash found by the list
+// generator — service::telemetry::{traces,logs}::processors with a batch (or
+// simple) processor whose OTLP exporter has no endpoint made the telemetry
+// migration shims dereference a nil pointer while LOADING.  Every shape
+// (traces/logs/metrics readers; batch/simple/periodic; with and without endpoint)
+// must load or be rejected with an error, never panic — at the provider level
+// and through Collector.DryRun — and, when it loads, be faithful.
+func TestTelemetryProcessorsProbe(t *testing.T) {
+	if sweepReplay(t, cProbe, "telemetry-processors-probe") {
+		return
+	}
+	if !firstShard() {
+		t.Skip()
+	}
+	defer cProbe.Flush()
+	type shape struct{ list, kind string }
+	shapes := []shape{
+		{"telemetry::traces::processors", "batch"}, {"telemetry::traces::processors", "simple"},
+		{"telemetry::logs::processors", "batch"}, {"telemetry::logs::processors", "simple"},
+		{"telemetry::metrics::readers", "periodic"},
+	}
+	for _, sh := range shapes {
+		for _, withEndpoint := range []bool{false, true} {
+			for _, elems := range []int{1, 2} {
+				elem := []Write{w(sh.kind+"::exporter::otlp::protocol", vStr("grpc"))}
+				if withEndpoint {
+					elem = append(elem, w(sh.kind+"::exporter::otlp::endpoint", vStr("localhost:4317")))
+				}
+				v := Val{K: "list"}
+				for i := 0; i < elems; i++ {
+					v.E = append(v.E, elem)
+				}
+				s, _ := minimal(serviceKind, []Write{{P: strings.Split(sh.list, "::"), V: v}})
+				s.Sweep = fmt.Sprintf("probe %s %s endpoint=%v x%d", sh.list, sh.kind, withEndpoint, elems)
+				// the raw question first: no panic at either entry point
+				text, _ := render(s.baseDoc())
+				l := loadDoc(s.baseDoc(), false)
+				d := dryRun(text)
+				if l.panicV != nil || d.panicV != nil {
+					pv, st := l.panicV, l.stack
+					if pv == nil {
+						pv, st = d.panicV, d.stack
+					}
+					f := vt.Failf("panic/load/service/service", "%s: the document is answered with a panic instead of being loaded or rejected with an error: %v\ndocument: %s\n%s", s.Sweep, pv, text, st)
+					cProbe.Eval(true, s.Sweep)
+					cProbe.Violation(f, s)
+					t.Fatalf("%v", f)
+				}
+				if l.err() == nil {
+					cProbe.Class("loads")
+				} else {
+					cProbe.Class("rejected-with-error")
+				}
+				sweepCase(t, cProbe, s) // and the full oracle (guard, faithfulness, DryRun agreement)
+			}
+		}
+	}
+	cProbe.SetExhaustive(true)
 }
